@@ -95,7 +95,25 @@ def container_census(live: Dict[str, Any] | None = None) -> Dict[str, int]:
             out[name] = len(obj)
         except TypeError:
             pass
+    # process-level resources
+    import os
+    import warnings
+    import tempfile
+    out["os.environ"] = len(os.environ)
+    out["sys.path"] = len(sys.path)
+    out["sys.modules"] = len(sys.modules)
+    out["warnings.filters"] = len(warnings.filters)
+    out["threads"] = threading.active_count()
+    try:
+        out["open-file-descriptors"] = len(os.listdir("/proc/self/fd"))
+    except OSError:
+        pass
+    priv = os.environ.get("VERIF_C18_TMP")
+    if priv and tempfile.gettempdir() == priv:
+        out["temp-dir-entries"] = len(os.listdir(priv))
     import logging
+    out["logging.handlers"] = len(logging.getLogger().handlers) + sum(
+        len(getattr(lg, "handlers", [])) for lg in logging.Logger.manager.loggerDict.values())
     out["logging.Logger.manager.loggerDict"] = len(logging.Logger.manager.loggerDict)
     import atexit
     ncb = getattr(atexit, "_ncallbacks", None)
@@ -113,6 +131,14 @@ def one_mode(job) -> Dict[str, Any]:
 
     prog, mode = job["prog"], job["mode"]
     nodes = PROGRAMS[prog]
+    # a private temp directory for this process: what the framework leaves there is counted
+    import os as _os
+    import shutil as _shutil
+    import tempfile as _tempfile
+    _priv = _tempfile.mkdtemp(prefix="vc18tmp-")
+    _os.environ["VERIF_C18_TMP"] = _priv
+    _os.environ["TMPDIR"] = _priv
+    _tempfile.tempdir = None
     samples: Dict[int, Dict[str, Any]] = {}
 
     def payload():
@@ -194,6 +220,7 @@ def one_mode(job) -> Dict[str, Any]:
             samples[cp] = {"registry": registry_sizes(), "instances": instance_census(), "containers": container_census(live)}
     finally:
         cleanup()
+        _shutil.rmtree(_priv, ignore_errors=True)
     return {"prog": prog, "mode": mode, "samples": samples}
 
 
